@@ -11,6 +11,7 @@ import (
 	"github.com/free5gc/chf/internal/abmf"
 	"github.com/free5gc/chf/internal/rating"
 	chf_context "github.com/free5gc/chf/internal/context"
+	"github.com/free5gc/chf/pkg/factory"
 	"github.com/free5gc/openapi/models"
 )
 
@@ -25,6 +26,7 @@ func verif_held(mu *sync.Mutex) bool { return true }
 
 var _ = chf_context.GetSelf
 var _ = cdrFile.SpecFileOK
+var _ = factory.ChfConfig
 var _, _ = abmf.GhostRequests, rating.GhostRequests
 
 // ---- CDR life cycle (C02, C11) ------------------------------------------------------------
@@ -95,14 +97,22 @@ func specSameQuota(ue *chf_context.ChfUe, old map[int32]int64) bool {
 	return verif_forall(func(rg int32) bool { return ue.ReservedQuota[rg] == old[rg] })
 }
 
-// sessionChargingReservation (rating, account debit, reservation bookkeeping): here only its frame -
-// it touches the quota bookkeeping of the subscriber named in the request and talks to the two
-// Diameter peers, never a charging record. Its arithmetic is the subject of the bounded contract below.
-//@ func sessionChargingReservation [C01 C06 C09]
-//@   trusted
+// sessionChargingReservation (rating, account debit, reservation bookkeeping): called with the
+// subscriber lock held; it touches the quota bookkeeping of the subscriber named in the request and
+// talks to the two Diameter peers, never a charging record; no request content makes it panic (C11).
+// Its arithmetic is the subject of the bounded lemma further below. The frame is assumed: the appends to
+// slices the function creates itself are not separated from pre-existing arrays by the loop havoc.
+//@ func sessionChargingReservation [C09 C11 C12]
 //@   requires verif_held(&specUe(chargingData).CULock)
+//@   requires [C20] factory.ChfConfig != nil && factory.ChfConfig.Configuration != nil && factory.ChfConfig.Configuration.RfDiameter != nil && factory.ChfConfig.Configuration.RfDiameter.Tls != nil && factory.ChfConfig.Configuration.AbmfDiameter != nil && factory.ChfConfig.Configuration.AbmfDiameter.Tls != nil
+//@   requires [C20] chf_context.GetSelf().AbmfCfg != nil && chf_context.GetSelf().RatingCfg != nil
 //@   modifies mapof(specUe(chargingData).ReservedQuota), mapof(specUe(chargingData).UnitCost), mapof(specUe(chargingData).AcctRequestNum), mapof(specUe(chargingData).RatingType), field(specUe(chargingData), RatingGroups)
 //@   modifies global(&abmf.GhostRequests), global(&rating.GhostRequests)
+//@   modifies elems(specUe(chargingData).RatingGroups[len(specUe(chargingData).RatingGroups):cap(specUe(chargingData).RatingGroups)])
+//@   assumed-frame
+//@   loop 0: invariant 0 <= ITER && ITER <= len(chargingData.MultipleUnitUsage)
+//@   loop 1: invariant 0 <= ITER && ITER <= len(unitUsage.UsedUnitContainer)
+//@   loop 2: invariant 0 <= ITER && ITER <= len(chargingData.Triggers)
 
 // Release: 204 (nil) on success; a request naming an unknown subscriber or session is answered 4xx and
 // has no effect (no reservation change, no record change, nothing sent to the peers); the usage goes to
